@@ -11,7 +11,9 @@
 /* trusted: alignment hint is the identity */
 #define __builtin_assume_aligned(p, ...) (p)
 /* nondeterministic scalars come from bodied helpers (bodyless calls are assert(false) under dfcc) */
-#define VC_ND(T, nm) static inline T vc_nondet_##nm(const char* name) { T vc_val; (void)name; return vc_val; }
+/* no string literal reaches the verifier (a havoc of "every object" over string-literal objects aborts CBMC); the draw is
+   named after the variable that receives it, which is how the counterexample extractor labels it */
+#define VC_ND(T, nm) static inline T vc_nd_##nm(void) { T vc_val; return vc_val; }
 VC_ND(size_t, size)
 VC_ND(uintptr_t, uptr)
 VC_ND(uint64_t, u64)
@@ -21,7 +23,17 @@ VC_ND(uint16_t, u16)
 VC_ND(uint8_t, u8)
 VC_ND(int, int)
 VC_ND(long, long)
-static inline bool vc_nondet_bool(const char* name) { uint8_t vc_val; (void)name; return (vc_val & 1) != 0; }   /* a valid _Bool (0/1), not any byte */
+static inline bool vc_nd_bool(void) { uint8_t vc_val; return (vc_val & 1) != 0; }   /* a valid _Bool (0/1), not any byte */
+#define vc_nondet_size(n) vc_nd_size()
+#define vc_nondet_uptr(n) vc_nd_uptr()
+#define vc_nondet_u64(n)  vc_nd_u64()
+#define vc_nondet_i64(n)  vc_nd_i64()
+#define vc_nondet_u32(n)  vc_nd_u32()
+#define vc_nondet_u16(n)  vc_nd_u16()
+#define vc_nondet_u8(n)   vc_nd_u8()
+#define vc_nondet_int(n)  vc_nd_int()
+#define vc_nondet_long(n) vc_nd_long()
+#define vc_nondet_bool(n) vc_nd_bool()
 #define VC_ASSERT(c, txt) __CPROVER_assert((c), txt)
 #define VC_ASSUME(c) __CPROVER_assume(c)
 #endif /* VC_CBMC */
